@@ -56,11 +56,51 @@
         // C15 frame: nothing else but the metrics changes
         exists|o: PayloadHistory, n: PayloadHistory| #[trigger] self.released(o, n)
             && n.session == o.session && n.keep == o.keep && n.refresh == o.refresh && n.min_refresh == o.min_refresh
+            && n.unsafe_vrps == o.unsafe_vrps && n.timing == o.timing
             && n.last_update_start == o.last_update_start && n.last_update_done == o.last_update_done
-            && n.last_update_duration == o.last_update_duration && n.next_update_start == o.next_update_start,
+            && n.last_update_duration == o.last_update_duration && n.next_update_start == o.next_update_start
+            // (`created` may only move when the served version changes, and then only forward)
+            && (n.cur() == o.cur() ==> n.created == o.created)
+            && (o.created is Some ==> n.created is Some && n.created->Some_0.t@ >= o.created->Some_0.t@)
+            && (o.created is None ==> n.created is None),
         // C16: a section that changes the served version must also advance `created` past the
         // second of every Last-Modified issued before (see guarantee16)
         exists|o: PayloadHistory, n: PayloadHistory| #[trigger] self.released(o, n) && guarantee16(o, n),
+//@ exit
+        proof {
+            // the content this call read (= the content at the write acquisition: single writer)
+            let o = choose|h: PayloadHistory| self.held(h);
+            let n = *history;
+            let x = n.current->Some_0.content();
+            // C15 (I)
+            assert forall|c: spec_fn(u32) -> Content| #[trigger] o.inv(c) implies n.inv(upd(c, n.cur().0, x)) by {
+                if o.current is Some && o.current->Some_0.content() != x {
+                    // a change set was pushed: o1 = content before the push, p = content after it
+                    let c2 = upd(c, wadd(o.cur().0, 1), x);
+                    let o1 = PayloadHistory { metrics: n.metrics, ..o };
+                    let p = PayloadHistory { current: o.current, ..n };
+                    lemma_upd_next(o, c, x);
+                    // C15
+                    assert(o1.deltas == o.deltas);
+                    // C15
+                    assert(o1.spans_ok(c2));
+                    // C15
+                    assert(p.spans_ok(c2));
+                    // C15
+                    assert(n.deltas == p.deltas);
+                    // C15
+                    assert(n.spans_ok(c2));
+                    // C15
+                    assert(n.cur().0 == wadd(o.cur().0, 1));
+                } else {
+                    // serial unchanged; the ghost history changes at most at a serial whose data set is equal
+                    // C15
+                    if o.current is Some { assert(upd(c, o.cur().0, x) =~= c); }
+                    // C15
+                    assert(n.deltas == o.deltas);
+                }
+            }
+        }
 //@ closure 1
 |current: &Arc<PayloadSnapshot>| -> (r: Option<PayloadDelta>)
     ensures
@@ -69,28 +109,29 @@
 //@ fn SharedHistory::mark_update_start
 //@ spec
     ensures
-        exists|o: PayloadHistory, n: PayloadHistory| #[trigger] self.released(o, n) && ({
-            // C33: marking the start of a run writes last_update_start and nothing else
-            &&& n.same_but_deltas(o) && n.deltas == o.deltas && n.created == o.created
-            &&& n.last_update_done == o.last_update_done && n.last_update_duration == o.last_update_duration
-            &&& n.next_update_start == o.next_update_start
-            // C15 / C16: hence invariant and guarantee are kept
-            &&& forall|c: spec_fn(u32) -> Content| #[trigger] o.inv(c) ==> n.inv(c)
-            &&& guarantee16(o, n)
-        }),
+        // C33: marking the start of a run writes last_update_start and nothing else
+        exists|o: PayloadHistory, n: PayloadHistory| #[trigger] self.released(o, n)
+            && n.same_core(o) && n.deltas == o.deltas && n.created == o.created
+            && n.last_update_done == o.last_update_done && n.last_update_duration == o.last_update_duration
+            && n.next_update_start == o.next_update_start,
+        // C15: the lock invariant is kept
+        exists|o: PayloadHistory, n: PayloadHistory| #[trigger] self.released(o, n)
+            && forall|c: spec_fn(u32) -> Content| #[trigger] o.inv(c) ==> n.inv(c),
+        // C16: per-section guarantee (the served version does not change here)
+        exists|o: PayloadHistory, n: PayloadHistory| #[trigger] self.released(o, n) && guarantee16(o, n),
 //@ fn SharedHistory::mark_update_done
 //@ spec
     ensures
-        exists|o: PayloadHistory, n: PayloadHistory| #[trigger] self.released(o, n) && ({
-            // C15: data set, change sets, serial and session are not touched
-            &&& n.same_but_deltas_times(o) && n.deltas == o.deltas
-            &&& forall|c: spec_fn(u32) -> Content| #[trigger] o.inv(c) ==> n.inv(c)
-            // C16: created is set, and strictly increases in whole seconds, so a Last-Modified issued
-            // before this section never compares >= the new created
-            &&& n.created is Some
-            &&& o.created is Some ==> n.created->Some_0.secs() > o.created->Some_0.secs()
-            &&& guarantee16(o, n)
-        }),
+        // C15: data set, change sets, serial, session and configuration are not touched; the lock invariant is kept
+        exists|o: PayloadHistory, n: PayloadHistory| #[trigger] self.released(o, n)
+            && n.same_core(o) && n.deltas == o.deltas && n.last_update_start == o.last_update_start
+            && forall|c: spec_fn(u32) -> Content| #[trigger] o.inv(c) ==> n.inv(c),
+        // C16: created is set, and strictly increases in whole seconds, so a Last-Modified issued
+        // before this section never compares >= the new created
+        exists|o: PayloadHistory, n: PayloadHistory| #[trigger] self.released(o, n)
+            && n.created is Some
+            && (o.created is Some ==> n.created->Some_0.secs() > o.created->Some_0.secs())
+            && guarantee16(o, n),
 //@ closure 1
 |_e: OutOfRangeError| -> (r: Duration) ensures r.ns@ == 0
 //@ closure 2
@@ -117,22 +158,23 @@
 //@ fn SharedHistory::diff
 //@ spec
     ensures
+        // C13: a serial of a foreign session is always refused; only serials of the retained window
+        // are answered, and all of them are
         exists|h: PayloadHistory| #[trigger] self.held(h) && h.inv_ex() && ({
-            // C13: a serial of a foreign session is always refused
             &&& res is Some ==> state.session == h.session as u16
-            // C13: only serials of the retained window are answered, and all of them are
             &&& res is Some ==> wsub(h.cur().0, state.serial.0) as int <= h.deltas@.len()
             &&& (state.session == h.session as u16
                     && (wsub(h.cur().0, state.serial.0) == 0 || (wsub(h.cur().0, state.serial.0) as int) < h.deltas@.len()))
                     ==> res is Some
-            // C15: the answer pairs the session/serial of that one state with the change set from the
-            // client's serial to exactly that serial's data set
-            &&& res matches Some(r) ==> (
+        }),
+        // C15: the answer pairs the session/serial of ONE state with the change set from the client's
+        // serial to exactly that serial's data set
+        exists|h: PayloadHistory| #[trigger] self.held(h) && h.inv_ex() && (
+            res matches Some(r) ==> (
                     r.0 == (State { session: h.session as u16, serial: h.cur() })
                     && r.1.delta_spec().serial_spec() == h.cur()
                     && forall|c: spec_fn(u32) -> Content| #[trigger] h.inv(c) ==>
-                            r.1.delta_spec().is_diff(c(state.serial.0), c(h.cur().0)))
-        }),
+                            r.1.delta_spec().is_diff(c(state.serial.0), c(h.cur().0)))),
 //@ closure 1
 |delta: Arc<PayloadDelta>| -> (r: (State, DeltaArcIter))
     ensures r.0 == (State { session: read.session as u16, serial: read.cur() }), r.1.delta_spec() == delta
@@ -173,6 +215,9 @@ impl PayloadHistory {
     // C15 lock invariant, for a ghost history c (data set of each serial)
     spec fn inv(&self, c: spec_fn(u32) -> Content) -> bool {
         &&& self.chain() && self.bounded() && self.spans_ok(c)
+        // configuration assumption: history-size < 2^31 - 1 (a serial number identifies a data set
+        // only within a window shorter than 2^31 versions)
+        &&& self.bound() + 1 < 0x8000_0000
         // the served data set is the data set of the served serial
         &&& self.current matches Some(s) ==> s.content() == c(self.cur().0)
         // before the first data set there is no history (serial 0)
@@ -181,12 +226,29 @@ impl PayloadHistory {
     spec fn inv_ex(&self) -> bool { exists|c: spec_fn(u32) -> Content| self.inv(c) }
 
     // frames
-    spec fn same_but_deltas(&self, o: PayloadHistory) -> bool {
+    spec fn same_core(&self, o: PayloadHistory) -> bool {
         &&& self.current == o.current && self.metrics == o.metrics && self.session == o.session
         &&& self.keep == o.keep && self.refresh == o.refresh && self.min_refresh == o.min_refresh
         &&& self.unsafe_vrps == o.unsafe_vrps && self.timing == o.timing
     }
-    spec fn same_but_deltas_times(&self, o: PayloadHistory) -> bool {
-        self.same_but_deltas(o) && self.last_update_start == o.last_update_start
+    spec fn same_times(&self, o: PayloadHistory) -> bool {
+        &&& self.last_update_start == o.last_update_start && self.last_update_done == o.last_update_done
+        &&& self.last_update_duration == o.last_update_duration && self.next_update_start == o.next_update_start
+        &&& self.created == o.created
+    }
+    spec fn same_but_deltas(&self, o: PayloadHistory) -> bool { self.same_core(o) && self.same_times(o) }
+}
+
+// extending a ghost history at the next serial does not disturb the retained window
+proof fn lemma_upd_next(h: PayloadHistory, c: spec_fn(u32) -> Content, x: Content)
+    requires h.chain(), h.spans_ok(c),
+    ensures h.spans_ok(upd(c, wadd(h.cur().0, 1), x)), upd(c, wadd(h.cur().0, 1), x)(h.cur().0) == c(h.cur().0),
+{
+    let c2 = upd(c, wadd(h.cur().0, 1), x);
+    let cur = h.cur().0;
+    assert forall|i: int| 0 <= i < h.deltas@.len() implies
+        (#[trigger] h.deltas@[i]).is_diff(c2(wadd(cur, -i - 1)), c2(wadd(cur, -i))) by {
+        assert(wadd(cur, -i - 1) != wadd(cur, 1));
+        assert(wadd(cur, -i) != wadd(cur, 1));
     }
 }
